@@ -98,6 +98,7 @@ type iJob[T any] interface {
 	Job[T]
 	StatusProvider
 	changeStatus(s status)
+	startProcessing() bool
 	setAckId(id string)
 	setInternalQueue(q IBaseQueue)
 	ack() error
@@ -183,6 +184,37 @@ func (j *job[T]) changeStatus(s status) {
 	}
 }
 
+// startProcessing claims the job for execution in one atomic step.
+// It reports false when the job has been closed, also when that happens concurrently.
+func (j *job[T]) startProcessing() bool {
+	for {
+		cur := j.status.Load()
+		if cur == closed {
+			return false
+		}
+		if j.status.CompareAndSwap(cur, processing) {
+			return true
+		}
+	}
+}
+
+// markClosed moves the job to closed exactly once: of several concurrent Close calls,
+// and of a Close racing with the dispatcher's startProcessing, only one succeeds.
+func (j *job[T]) markClosed() error {
+	for {
+		cur := j.status.Load()
+		switch cur {
+		case processing:
+			return ErrJobProcessing
+		case closed:
+			return ErrJobAlreadyClosed
+		}
+		if j.status.CompareAndSwap(cur, closed) {
+			return nil
+		}
+	}
+}
+
 func (j *job[T]) Wait() {
 	j.wg.Wait()
 }
@@ -248,7 +280,9 @@ func (j *job[T]) Close() error {
 		return err
 	}
 
-	j.status.Store(closed)
+	if err := j.markClosed(); err != nil {
+		return err
+	}
 	j.wg.Done()
 
 	return nil
